@@ -70,8 +70,8 @@ Proof. exact limit_signals_unshare. Qed.
 Print Assumptions C08_limit_signals_unshare.
 
 Theorem C08_limit_signals_ptrace : forall st pgid pid, h_execved st = true -> zmem pid (h_traced st) = true ->
-  o_status (handle st pgid pid (ws_of_stop 24 0) true true) = TimeLimit /\
-  o_status (handle st pgid pid (ws_of_stop 25 0) true true) = OutputLimit.
+  o_status (handle st pgid pid (ws_of_stop 24 0) SoOk TrOk) = TimeLimit /\
+  o_status (handle st pgid pid (ws_of_stop 25 0) SoOk TrOk) = OutputLimit.
 Proof. exact limit_signals_ptrace. Qed.
 Print Assumptions C08_limit_signals_ptrace.
 
